@@ -46,6 +46,7 @@ def run(ctx):
         raise Broken("C08-R3: message-type accessor obligations not found (%d)" % k2)
     E.rule_type_change_rebuilds_template(res, "C08-R3", m)
     E.rule_type_change_opens_frame(res, "C08-R3", m)
+    E.rule_open_reasons(res, "C08-R3", m)
     n4 = E.rule_fit_decided_on_fresh_frame(res, "C08-R4", m, placement=True)
     E.rule_batch_order(res, "C08-R5", m)
     E.rule_header_fully_stamped(res, "C08-R6", m)
